@@ -320,7 +320,12 @@ def check(ctx):
     ctx.ob("C05.3", fm, ok,
            "returns (indices into stamps_1, indices into stamps_2) in this "
            "order" if ok else f"return value order: {fmt(ret)}",
-           key="C05.3:mti:return-order")
+           key="C05.3:mti:return-order",
+           # evident when both components are read and stand the other way
+           # round (a pair list transposed by zip(*...) etc. is not read)
+           evidence=ret.op == "tuple" and len(ret.args) == 2 and
+           _component(ret.args[0]) is not None and
+           _component(ret.args[1]) is not None)
 
     # C05.8 loop-carried dependence / post-pass
     carried = [x for t in [idx2] + [e.live for e in apps]
